@@ -221,12 +221,13 @@ def run_case(spec):
                     vs.append(V("report-content", "StreamToExtended", "bracket %r, model expects %r" % (g, w)))
                     break
             rest = list(got[len(wf):])
-            for w in wx:
-                hit = next((g for g in rest if same(g, w, None)), None)
-                if hit is None:
-                    vs.append(V("report-content", "StreamToExtended-incomplete", "no bracket for incomplete test %r among %r" % (w, rest)))
-                    break
-                rest.remove(hit)
+            if wx:
+                # an incomplete test without a first timestamp accepts any start time: assign brackets
+                # to expected reports by maximum matching, not greedily
+                from vp.matchers import _max_matching
+                acc = [[same(g, w, None) for g in rest] for w in wx]
+                if _max_matching(acc) != len(wx):
+                    vs.append(V("report-content", "StreamToExtended-incomplete", "incomplete tests %r cannot be matched one-to-one with the brackets %r" % (wx, rest)))
 
     # ---- non-triviality
     keys = [(e["test_id"], e["route_code"]) for e in events if e["test_id"] is not None]
